@@ -21,8 +21,25 @@ class FakePath:
         self.fs = fs
 
     def _abs(self, p):
-        # a relative path is looked up from the process's working directory
-        return p if p.startswith('/') else posixpath.normpath(posixpath.join(self.fs.cwd, p))
+        # a relative path is looked up from the process's working directory; the path is walked physically:
+        # a symbolic link is followed where it stands, and '..' then leaves the directory the link points to
+        if not p.startswith('/'):
+            p = posixpath.join(self.fs.cwd, p)
+        links = getattr(self.fs, 'links', None) or {}
+        cur = '/'
+        for part in p.split('/'):
+            if part in ('', '.'):
+                continue
+            if part == '..':
+                cur = posixpath.dirname(cur)
+                continue
+            cur = posixpath.join(cur, part)
+            for _ in range(8):
+                if cur in links:
+                    cur = links[cur]
+                else:
+                    break
+        return cur
 
     def exists(self, p):
         p = self._abs(p)
@@ -54,16 +71,20 @@ class FakePath:
     getctime = getmtime
 
     def getsize(self, p):
-        if p in self.fs.files:
-            return len(self.fs.files[p].encode())
+        if self._abs(p) in self.fs.files:
+            return len(self.fs.files[self._abs(p)].encode())
         if not self.exists(p):
             raise FileNotFoundError(p)
         return 4096
 
     def abspath(self, p):
-        return posixpath.normpath(self._abs(p))
+        return posixpath.normpath(p if p.startswith('/') else posixpath.join(self.fs.cwd, p))
 
-    realpath = abspath
+    def realpath(self, p):
+        return self._abs(p)
+
+    def islink(self, p):
+        return self.abspath(p) in (getattr(self.fs, 'links', None) or {})
     normpath = staticmethod(posixpath.normpath)
     split = staticmethod(posixpath.split)
     splitext = staticmethod(posixpath.splitext)
@@ -104,19 +125,26 @@ class FakeOs:
 
 class FakeFs:
     def __init__(self, sc):
-        self.files = dict(sc.get('files', {}))
-        self.dirs = set(sc.get('dirs', []))
-        self.sockets = set(sc.get('sockets', []))
         self.env = dict(sc.get('env', {}))
         self.mtimes = dict(sc.get('mtimes', {}))
         self.cwd = sc.get('cwd', '/work')
+        self.links = dict(sc.get('links', {}))     # symbolic links: path -> absolute target
         self.opened = []
+        self.load(sc)
+
+    def load(self, sc):
+        """the scenario names files and directories by the path they are reached by; they are kept by where they really are"""
+        real = FakePath(self)._abs
+        self.files = {real(k): v for k, v in sc.get('files', {}).items()}
+        self.dirs = set(real(d) for d in sc.get('dirs', []))
+        self.sockets = set(real(x) for x in sc.get('sockets', []))
 
     def open(self, path, mode='r', *a, **k):
         self.opened.append(path)
-        if path not in self.files:
+        real = FakePath(self)._abs(path)
+        if real not in self.files:
             raise FileNotFoundError(path)
-        return io.StringIO(self.files[path])
+        return io.StringIO(self.files[real])
 
 
 # ---- reference resolver (the oracle) ------------------------------------------------------------
@@ -139,7 +167,7 @@ def ref_resolve(sc):
     fs = FakeFs(sc)
     exists = FakePath(fs).exists
     conf_path = next((p for p in CONF_PATHS if exists(p)), None)
-    file_vals = ref_parse_file(fs.files[conf_path]) if conf_path else {}
+    file_vals = ref_parse_file(fs.files[FakePath(fs)._abs(conf_path)]) if conf_path else {}
     if not exists('/run/nfd/nfd.sock') and exists('/run/nfd.sock'):
         default_transport = 'unix:///run/nfd.sock'
     else:
@@ -249,7 +277,7 @@ class ConfWorld(World):
             if sc.get('prior'):
                 now_fs = (self.fs.files, self.fs.dirs, self.fs.sockets, dict(self.fs.env))
                 pr = sc['prior']
-                self.fs.files, self.fs.dirs, self.fs.sockets = dict(pr.get('files', {})), set(pr.get('dirs', [])), set(pr.get('sockets', []))
+                self.fs.load(pr)
                 self.fs.env.clear()
                 self.fs.env.update(pr.get('env', {}))
                 try:
@@ -280,7 +308,7 @@ class ConfWorld(World):
                     if got_scheme != scheme:
                         self.violate('C20', 'precedence', 'client_conf', f'{k}-{source[k]}',
                                      f'{k} scheme resolved to {got_scheme!r}; expected {scheme!r} (from {source[k]})')
-                    elif k not in abstain and got_loc != loc:
+                    elif k not in abstain and self._real(got_loc) != self._real(loc):
                         self.violate('C20', 'location', 'client_conf', f'{k}-{source[k]}',
                                      f'{k} location resolved to {got_loc!r}; expected {loc!r} (value from {source[k]}, '
                                      f'config file {conf_path})')
@@ -305,7 +333,7 @@ class ConfWorld(World):
                     if exp['tpm'][0] != 'tpm-file' or exp['pib'][0] != 'pib-sqlite3':
                         self.violate('C20', 'store-scheme-accepted', 'client_conf', 'default_keychain',
                                      f'unknown store scheme accepted: pib={conf["pib"]} tpm={conf["tpm"]}')
-                    elif self.store_calls != want:
+                    elif [(a, self._real(b)) for a, b in self.store_calls] != [(a, self._real(b)) for a, b in want]:
                         self.violate('C20', 'store-location', 'client_conf', 'default_keychain',
                                      f'stores opened {self.store_calls}; expected {want}')
                 except ValueError as e:
@@ -328,6 +356,10 @@ class ConfWorld(World):
             return res
         finally:
             self.close()
+
+    def _real(self, p):
+        """two spellings of one location are the same location"""
+        return FakePath(self.fs)._abs(p) if p else p
 
     def _connect(self, want, uri, fe):
         app = None
@@ -434,6 +466,8 @@ def generate(rng, seed, tier='quick'):
             return f'{scheme}:{loc}'                        # exists, absolute
         if cls == 2:
             rel = f'{kind}-store{rng.randint(0, 3)}'
+            if rng.random() < 0.2:
+                rel = f'../{kind}-up{rng.randint(0, 1)}'        # next to the configuration directory
             where = rng.choice(['conf', 'conf', 'cwd', 'both', 'neither'])
             if conf_dir is not None and where in ('conf', 'both'):
                 dirs.add(posixpath.join(conf_dir, rel))     # relative to the config file
@@ -449,7 +483,7 @@ def generate(rng, seed, tier='quick'):
         for j in range(first, 4):
             if j == first or rng.random() < 0.3:
                 lines = []
-                style = rng.choice(['plain', 'comments', 'spaced', 'upper'])
+                style = rng.choice(['plain', 'comments', 'spaced', 'upper', 'indented'])
                 if style == 'comments':
                     lines += ['; client configuration', '# generated', '']
                 vals = {'transport': transport(), 'pib': store('pib', pib_cls, posixpath.dirname(CONF_PATHS[j])),
@@ -459,7 +493,8 @@ def generate(rng, seed, tier='quick'):
                     if present:
                         kk = k.upper() if style == 'upper' else (k.capitalize() if rng.random() < 0.2 else k)
                         sep = ' = ' if style == 'spaced' else rng.choice(['=', '=', ' =', '= ', ': '])
-                        lines.append(f'{kk}{sep}{vals[k]}')
+                        ind = rng.choice(['', '  ', '\t', '    ']) if style == 'indented' else ''
+                        lines.append(f'{ind}{kk}{sep}{vals[k]}')
                     elif style == 'comments' and rng.random() < 0.5:
                         lines.append(f';{k}={vals[k]}')
                     if rng.random() < 0.2:
@@ -477,6 +512,11 @@ def generate(rng, seed, tier='quick'):
     sc = {'engine': 'clientconf', 'property': 'C20', 'seed': seed, 'config': {'turn_cost_us': 0, 'wall_gran_us': 1000},
           'frontend': rng.choice(['v2', 'v2', 'v1']), 'files': files, 'dirs': sorted(dirs), 'sockets': sorted(sockets),
           'env': env, 'cwd': cwd, 'ops': [{'k': k} for k in sorted(files)] or [{'k': 'none'}]}
+    if rng.random() < 0.12:
+        # ~/.ndn is a symbolic link (a configuration kept elsewhere): '..' from there leaves the directory it points to
+        sc['links'] = {HOME + '/.ndn': '/data/ndn-conf'}
+        if rng.random() < 0.5:
+            sc['dirs'] = sorted(set(sc['dirs']) | {HOME + '/pib-up0', HOME + '/tpm-up1'})     # what a lexical reading of '..' finds
     if rng.random() < 0.25:
         # the same paths held other content (same modification second) when the process looked first
         pf = {}
